@@ -111,6 +111,15 @@ where
         residuals: &DefaultResiduals<T>,
         timers: &Timers,
     ) {
+        #[cfg(feature = "verif")]
+        crate::verif_hooks::observer_push(
+            variables.τ,
+            variables.κ,
+            &variables.x,
+            &variables.s,
+            &variables.z,
+        );
+
         // optimality termination check should be computed w.r.t
         // the pre-homogenization x and z variables.
         let τinv = T::recip(variables.τ);
